@@ -10,12 +10,12 @@ cd $WT && git checkout -q -- . && git clean -qfd tests/ && git checkout -q --det
 LOG=$DST/confirm.log; : > $LOG
 cp $OUT/demo$I.rs tests/seeded_demo.rs
 echo "== demo on unmodified tree" >> $LOG
-cargo test --offline --test seeded_demo >> $LOG 2>&1; echo "demo_clean_exit=$?" >> $LOG
+cargo test --offline $FEATURES --test seeded_demo >> $LOG 2>&1; echo "demo_clean_exit=$?" >> $LOG
 git apply $OUT/patch$I.diff >> $LOG 2>&1 || { echo "patch does not apply" >> $LOG; }
 echo "== build + lib tests with change" >> $LOG
-cargo test --offline --lib >> $LOG 2>&1; echo "lib_tests_exit=$?" >> $LOG
+cargo test --offline $FEATURES --lib >> $LOG 2>&1; echo "lib_tests_exit=$?" >> $LOG
 echo "== demo with change" >> $LOG
-cargo test --offline --test seeded_demo >> $LOG 2>&1; echo "demo_mut_exit=$?" >> $LOG
+cargo test --offline $FEATURES --test seeded_demo >> $LOG 2>&1; echo "demo_mut_exit=$?" >> $LOG
 rm -f tests/seeded_demo.rs
 cd /verif
 for C in $CHECKS; do
